@@ -211,8 +211,12 @@ def run_property(spec, tier='quick', seed=0, root='/repo', jobs=None):
     both = tier == 'thorough'
     results = runmod.run_all(spec.units, spec.lib, jobs=jobs, seed=seed, both=both)
     extra = []
+    from .replay import DriverError
     for chk in spec.extra_checks:
-        extra.extend(chk(tier, seed))
+        try:
+            extra.extend(chk(tier, seed))
+        except DriverError as e:
+            extra.append({'undecided': [(f'{pid}/bounded', str(e))]})
     known = [k for k in load_known() if k.get('property') == pid]
     open_known = [k for k in known if k.get('status', 'open') == 'open']
     lines = []
